@@ -74,4 +74,10 @@ theorem orFold_eq_zero_iff (p : Nat → Prop) [DecidablePred p] (l : List Nat) :
     intro hm
     exact h i hm
 
+theorem sum_countP_flatMap (P : Nat → Bool) (L : List Nat) (M : Nat → List Nat) :
+    (L.map (fun g => (M g).countP P)).sum = (L.flatMap M).countP P := by
+  induction L with
+  | nil => rfl
+  | cons x L ih => simp [List.flatMap_cons, List.countP_append, ih]
+
 end Mila.Layered
